@@ -119,6 +119,24 @@ Definition prop_old_perm (args : list bytes) : bytes :=
   | _ => bs "badargs"
   end.
 
+
+(* [ver; universe; sets; auth; rejected; ejson; base sets; base auth; event JSONs]: the rearranged
+   input through the end-to-end model (auth rules = Auth.Model.allowed_bool) *)
+Definition run_resolve_perm_e2e (args : list bytes) : bytes :=
+  match args with
+  | [ver; u; sets; auth; rej; ej; _; _; j] => run_resolve_new_e2e [ver; u; sets; auth; rej; ej; j]
+  | _ => bs "badargs"
+  end.
+
+(* the end-to-end model on the base input gives what the implementation gives on the rearranged one *)
+Definition prop_perm_e2e (args : list bytes) : bytes :=
+  match args with
+  | [ver; u; _; _; rej; ej; bsets; bauth; j; obs] =>
+      let base := run_resolve_new_e2e [ver; u; bsets; bauth; rej; ej; j] in
+      if bytes_eqb base obs then bs "ok" else bs "FAIL end-to-end model on the base input gives " ++ base
+  | _ => bs "badargs"
+  end.
+
 Definition ops_C11 : list (bytes * (list bytes -> bytes)) :=
   [ (bs "C11.order", run_order);
     (bs "C11.linearise", run_linearise);
@@ -127,4 +145,6 @@ Definition ops_C11 : list (bytes * (list bytes -> bytes)) :=
     (bs "C11.prop.topo", prop_topo);
     (bs "C11.prop.linearise", prop_linearise);
     (bs "C11.prop.perm", prop_perm);
-    (bs "C11.prop.old_perm", prop_old_perm) ].
+    (bs "C11.prop.old_perm", prop_old_perm);
+    (bs "C11.resolve_perm_e2e", run_resolve_perm_e2e);
+    (bs "C11.prop.perm_e2e", prop_perm_e2e) ].
